@@ -11,6 +11,7 @@ mod rng;
 mod runner;
 
 mod c06_layout;
+mod c20_cmd;
 
 use proto::RunResult;
 use runner::{Ctx, Tier};
@@ -83,6 +84,7 @@ fn main() {
             // ---- property dispatch: one line per property module ----
             let (cases, rule, exhaustive, extra) = match prop.as_str() {
                 "C06" => c06_layout::run(&ctx),
+                "C20" => c20_cmd::run(&ctx),
                 _ => {
                     eprintln!("unknown property {}", prop);
                     std::process::exit(2)
